@@ -138,6 +138,19 @@ func (r *Runner) mutateImpl(op *Op) {
 		for _, o := range objs {
 			scribble(asRec(o))
 		}
+	case "search":
+		// objects returned by a search (indexed field, then unindexed field)
+		for _, f := range []string{"K", "V"} {
+			var val interface{} = int64(-1 << 62)
+			if f == "V" {
+				val = -1 << 40
+			}
+			objs, err := r.db.Search(r.proto(), f, ">=", val).Collect()
+			e["c"] = classify(err)
+			for _, o := range objs {
+				scribble(asRec(o))
+			}
+		}
 	case "share":
 		var o1, o2 sod.Object
 		var err error
